@@ -352,6 +352,7 @@ func cmdCheck(eng *Engine, args []string) int {
 	scanResults = append(scanResults, eng.recoverBoundaryChecks(id)...)
 	scanResults = append(scanResults, eng.loopVarChecks(id)...)
 	scanResults = append(scanResults, eng.quotedParamChecks(id)...)
+	scanResults = append(scanResults, eng.usedTypesChecks(id)...)
 	if id == "C16" {
 		scanResults = append(scanResults, eng.repeatChecks(id)...)
 		// determinism of what is computed: C06's obligation set, re-run under C16
